@@ -49,7 +49,9 @@ class Sgp4(AnalyticalPropagator):
             date = self.orbit.date + date
 
         # Convert the date to a tuple usable by the sgp4 library
-        _date = [float(x) for x in f"{date:%Y %m %d %H %M %S.%f}".split()]
+        # (the TLE epoch, hence the date handed to the library, is in UTC)
+        utc = date.change_scale("UTC")
+        _date = [float(x) for x in f"{utc:%Y %m %d %H %M %S.%f}".split()]
         p, v = self.tle.propagate(*_date)
 
         # Convert from km to meters
